@@ -436,7 +436,7 @@ fn run_scenario(rts: &mut Runtimes, sc: &Scenario, value_base: u64) -> RunResult
 // flight reconstruction and monitors (independent of the Lean model)
 
 #[derive(Default, Debug)]
-struct Flight { owner: usize, key: usize, members: Vec<usize>, task: Option<(usize, Out)>, task_runs: usize, completed: bool, removed: bool }
+struct Flight { owner: usize, key: usize, members: Vec<usize>, task: Option<(usize, Out)>, task_runs: usize, completed: bool, removed: bool, owner_returned: bool }
 
 struct Analysis {
     flights: Vec<Flight>,
@@ -477,6 +477,10 @@ fn analyse(sc: &Scenario, rr: &RunResult) -> Analysis {
                     Some(&f) => {
                         if flights[f].removed {
                             v.push(("joined-removed-flight".into(), format!("event {i}: caller {c} found the call of flight {f} after its owner's remove_call")));
+                        }
+                        // "a call made after the owning call of a finished flight has returned starts a new flight"
+                        if flights[f].owner_returned {
+                            v.push(("joined-flight-after-owner-returned".into(), format!("event {i}: caller {c} (key {key}) joined flight {f} although its owning call had already returned")));
                         }
                         if flights[f].completed { stats.push("ev.found_after_complete"); }
                         flights[f].members.push(*c);
@@ -523,7 +527,10 @@ fn analyse(sc: &Scenario, rr: &RunResult) -> Analysis {
                     flights[f].removed = true;
                 }
             },
-            Ev::X(c, r) => { ret[*c] = Some(r.clone()); },
+            Ev::X(c, r) => {
+                ret[*c] = Some(r.clone());
+                if let Some(f) = flight_of[*c] { if flights[f].owner == *c { flights[f].owner_returned = true; } }
+            },
         }
     }
     // one task run per flight
